@@ -60,8 +60,8 @@ static uint64_t fnv(uint64_t h, const void *p, size_t n) { const unsigned char *
 
 /* ------------------------------------------------------------------ scenarios */
 typedef struct { const char *f; int kind; int a, b, c; } Scen;
-static Scen S[4000]; static int NS = 0;
-static void add(const char *f, int kind, int a, int b, int c) { if (NS < 4000) { S[NS].f = f; S[NS].kind = kind; S[NS].a = a; S[NS].b = b; S[NS].c = c; NS++; } }
+static Scen S[16000]; static int NS = 0;
+static void add(const char *f, int kind, int a, int b, int c) { if (NS < 16000) { S[NS].f = f; S[NS].kind = kind; S[NS].a = a; S[NS].b = b; S[NS].c = c; NS++; } }
 static H3Index PENT[16][12];
 static LinkedGeoPolygon g_lgp; static int g_have_lgp = 0;
 
@@ -72,6 +72,23 @@ static H3Index cell_near_pentagon(int res, int pi, int ring) { /* ring 0: the pe
     free(d); free(dist); return r;
 }
 static H3Index far_cell(int res, int k) { H3Index h = 0; LatLng g = {0.3 + 0.01 * k, 0.7 + 0.013 * k}; latLngToCell(&g, res, &h); return h; }
+
+/* cells at the ends of the domain the fills iterate over: the first and the last cell in index order (and their opposite-corner
+ * relatives), the cells on the poles, on the antimeridian.  An iterator-based fill ends / starts its traversal there. */
+static H3Index extreme_cell(int res, int place) {
+    H3Index h = 0; LatLng g;
+    switch (place % 7) {
+        case 0: case 1: case 5: case 6: {
+            int bc = (place % 7 == 0 || place % 7 == 5) ? 0 : 121; int dg = (place % 7 == 0 || place % 7 == 6) ? 0 : 6;
+            H3Index r0[122]; getRes0Cells(r0); h = r0[bc];
+            for (int r = 1; r <= res; r++) { H3Index ch[7]; cellToChildren(h, r, ch); h = ch[dg]; }
+            return h; }
+        case 2: g.lat = M_PI / 2; g.lng = 0; break;
+        case 3: g.lat = -M_PI / 2; g.lng = 0; break;
+        default: g.lat = 0.1; g.lng = M_PI; break;
+    }
+    latLngToCell(&g, res, &h); return h;
+}
 
 /* builds a polygon from the boundary of `outer` with nh holes (boundaries of descendants) */
 static CellBoundary g_cb[3]; static GeoLoop g_holes[2]; static GeoPolygon g_poly;
@@ -111,11 +128,13 @@ static H3Error run_scen(const Scen *s, uint64_t *dig) {
             int out = -1; ARM(); r = areNeighborCells(o, t, &out); DISARM(); h = fnv(h, &out, sizeof out); break; }
         case 5: { /* polygonToCells: a=outer res, b=fill delta, c: holes = c%3, near pentagon = c/3 %2, flags */
             H3Index outer = (s->c / 3) % 2 ? cell_near_pentagon(s->a, s->c, (s->c / 6) % 3) : far_cell(s->a, s->c);
-            make_poly(outer, s->c % 3); uint32_t flags = s->c >= 60 ? 5 : 0; int fr = s->a + s->b; if (s->c >= 70) fr = 16;
+            if (s->c >= 200) outer = extreme_cell(s->a, (s->c - 200) / 12);
+            make_poly(outer, s->c % 3); uint32_t flags = s->c >= 60 && s->c < 200 ? 5 : 0; int fr = s->a + s->b; if (s->c >= 70 && s->c < 200) fr = 16;
             int64_t sz = 0; H3Error rs = maxPolygonToCellsSize(&g_poly, fr, flags, &sz); if (rs) { sz = 16; }
             H3Index *out = calloc(sz, 8); ARM(); r = polygonToCells(&g_poly, fr, flags, out); DISARM(); h = fnv(h, out, sz * 8); free(out); break; }
         case 6: case 7: { /* polygonToCellsExperimental / maxPolygonToCellsSizeExperimental: c%3 holes, (c/3)%4 mode, variants */
             H3Index outer = (s->c / 12) % 2 ? cell_near_pentagon(s->a, s->c, (s->c / 24) % 3) : far_cell(s->a, s->c);
+            if (s->c >= 200) outer = extreme_cell(s->a, (s->c - 200) / 12);
             make_poly(outer, s->c % 3); uint32_t flags = (s->c / 3) % 4; int fr = s->a + s->b;
             if (s->c >= 96 && s->c < 104) flags = 4 + s->c % 4 * 16; if (s->c >= 104 && s->c < 108) fr = s->c % 2 ? 16 : -1;
             int64_t sz = 0; if (s->kind == 7) ARM(); H3Error rs = maxPolygonToCellsSizeExperimental(&g_poly, fr, flags, &sz); DISARM();
@@ -156,6 +175,10 @@ static void build_scenarios(int quick) {
     add("polygonToCells", 5, 3, 1, 60); add("polygonToCells", 5, 3, 1, 70); add("polygonToCells", 5, 3, 1, 64);
     /* experimental: all modes x holes x near/far, bad flags, bad res, capacity exceeded */
     for (int a = 1; a <= (quick ? 5 : 10); a += 2) for (int b = 1; b <= 2; b++) for (int c = 0; c < 72; c += (quick ? 5 : 1)) { add("polygonToCellsExperimental", 6, a, b, c); add("maxPolygonToCellsSizeExperimental", 7, a, b, c); }
+    /* the ends of the iteration domain (first / last cell in index order, poles, antimeridian), outer res 0 included */
+    for (int a = 0; a <= (quick ? 4 : 9); a += (quick ? 2 : 1)) for (int place = 0; place < 7; place++) for (int c = 0; c < 12; c += (quick ? 5 : 1)) {
+        add("polygonToCellsExperimental", 6, a, 1, 200 + 12 * place + c); add("maxPolygonToCellsSizeExperimental", 7, a, 1, 200 + 12 * place + c);
+        if (c % 3 == 0 || !quick) add("polygonToCells", 5, a, 1, 200 + 12 * place + c); }
     for (int c = 96; c < 112; c++) { add("polygonToCellsExperimental", 6, 3, 1, c); if (c < 108) add("maxPolygonToCellsSizeExperimental", 7, 3, 1, c); }
     /* linked multipolygon + destroy */
     for (int c = 0; c < (quick ? 8 : 30); c++) { add("cellsToLinkedMultiPolygon", 8, 2 + c % 10, 1 + c % 3, c); }
@@ -172,8 +195,8 @@ int main(int argc, char **argv) {
     }
     if (strcmp(argv[1], "run") || argc < 6) return 2;
     FILE *rf = fopen(argv[4], "r"); if (!rf) return 2;
-    static unsigned refr[4000]; static uint64_t refd[4000]; int idx; unsigned rr; uint64_t dd;
-    while (fscanf(rf, "%d %u %" SCNx64, &idx, &rr, &dd) == 3) if (idx >= 0 && idx < 4000) { refr[idx] = rr; refd[idx] = dd; }
+    static unsigned refr[16000]; static uint64_t refd[16000]; int idx; unsigned rr; uint64_t dd;
+    while (fscanf(rf, "%d %u %" SCNx64, &idx, &rr, &dd) == 3) if (idx >= 0 && idx < 16000) { refr[idx] = rr; refd[idx] = dd; }
     fclose(rf);
     vt_open(argv[5]);
     for (int i = 0; i < NS; i++) {
